@@ -310,12 +310,21 @@ def check_early(case):
                                             exts))]
 
     srv12 = case.get("srv12")
+    frag = case.get("frag") and not srv12
 
     def mitm(direction, idx, rec):
         raw = rec["hdr"] + rec["body"]
         junk = [bytes([23 if not srv12 else 22, 3, 3]) +
                 sz.to_bytes(2, "big") + prg(b"early%d" % i, sz)
                 for i in range(n)]
+        if direction == "c2s" and not state.get("inj") and frag:
+            # behind the first *protected* fragment of the client's flight
+            # (with a compatibility CCS in between): the server has read
+            # with the handshake keys, nothing may be skipped any more
+            if rec["type"] == 23:
+                state["inj"] = True
+                return [raw, b"\x14\x03\x03\x00\x01\x01"] + junk
+            return [raw]
         if direction == "c2s" and not state.get("inj"):
             if not srv12 and idx == 0:
                 state["inj"] = True
@@ -329,6 +338,8 @@ def check_early(case):
 
     def prepare(cc, scn):
         Deviant(cc, fn)
+        if frag:
+            cc.recordSize = 20      # the client's Finished spans records
     cst = dict(st_)
     sst = dict(st_)
     if srv12:
@@ -355,6 +366,14 @@ def check_early(case):
         return good(labels=labels)
     srv = describe_exc(p.so.exc) if p.so.exc else p.so.state
     labels.append("server=" + srv)
+    if frag:
+        labels.append("after-protected-fragment")
+        if p.so.ok or not isinstance(p.so.exc, TLSLocalAlert):
+            return bad("undecryptable-record-skipped:after-protected-record",
+                       "%d forged record(s) of %d bytes (and a CCS) between "
+                       "two fragments of the client's protected flight: "
+                       "server ended with %s" % (n, sz, srv), labels=labels)
+        return good(labels=labels)
     if total >= 2 * M:
         if p.so.ok or not isinstance(p.so.exc, TLSLocalAlert):
             return bad("undecryptable-records-skipped-beyond-budget",
@@ -864,6 +883,8 @@ def explicit(tier, seed):
         if n <= 3:
             yield {"level": "E", "n": n, "size": min(sz, 300),
                    "budget": 2000, "srv12": True}
+            yield {"level": "E", "n": n, "size": min(sz, 300),
+                   "budget": 2000, "frag": True}
     for v in ((3, 4), (3, 3), (3, 1)):
         for d in "cs":
             for auth in (False, True):
